@@ -5,16 +5,16 @@ CONSTANTS
   Bad = 99
   Cooldown = 2
   MaxNow = 4
-  MaxLen = 8
-  RepFloor = 6
-  RepMax = 2
+  MaxLen = 4
+  RepFloor = 4
+  RepMax = 1
   Reward = 1
   Penalty = 2
   CooldownSkipsChecks = FALSE
   InvalidKeyNoPenalty = FALSE
-  Versions = {"cur"}
-  OldVersionSkipsPow = FALSE
-INVARIANTS Reach_BadNonceInCooldown
+  Versions = {"cur", "old"}
+  OldVersionSkipsPow = TRUE
+INVARIANTS C20_AcceptNeedsValidPow
 VIEW View
 CONSTRAINT Bound
 CHECK_DEADLOCK FALSE
